@@ -50,8 +50,19 @@ Definition subclass_radd (b a : cls) : bool :=
   | _, _ => false
   end.
 
+(* Variant switches (DESIGN 2.5): behaviours of /repo that are recorded findings.  The harness
+   measures which variant the current code exhibits and passes it to the correspondence; the
+   theorems are proved for every variant, the full flag statement for the repaired one. *)
+Record variant := {
+  v_frvec_lin : bool;     (* FunctionalRightVectorMult keeps is_linear of its operand *)
+  v_vecsum_field : bool   (* OperatorVectorSum accepts an operator whose range is the field *)
+}.
+Definition variant_current : variant := {| v_frvec_lin := false; v_vecsum_field := false |}.
+Definition variant_repaired : variant := {| v_frvec_lin := true; v_vecsum_field := true |}.
+
 Section Model.
 Context {T : Type} `{Num T}.
+Variable vt : variant.
 Notation vec := (list T).
 
 (* A leaf: any Operator/Functional object that is not one of the expression classes.
@@ -132,7 +143,8 @@ Fixpoint olin (o : oexpr) : bool :=
   | OScalSum a c => olin a && (c =? nzero)        (* FunctionalSum(f, ConstantFunctional c) *)
   | OVecSum _ _ => false                          (* linear not passed *)
   | OLScal _ a _ | ORScal _ a _ | OLVec a _ | OFLVec a _ => olin a
-  | ORVec fn a _ => if fn then false else olin a  (* FunctionalRightVectorMult: Functional.__init__(space) resets the flag *)
+  | ORVec fn a _ => if fn then v_frvec_lin vt && olin a else olin a
+      (* FunctionalRightVectorMult: Functional.__init__(self, space) resets the flag (variant false) *)
   | OPtw _ _ => false
   end.
 
@@ -248,7 +260,8 @@ Definition add_v (a : oexpr) (v : vec) : res oexpr :=
 Definition add_c (a : oexpr) (c : T) : res oexpr :=
   if ofunc a then Ok (OScalSum a c)
   else match oran a with
-       | SF => Err TypeErr                          (* OperatorVectorSum rejects a field range *)
+       | SF => if v_vecsum_field vt then Ok (OVecSum a [c])   (* vector = range.element(other) *)
+               else Err TypeErr                     (* OperatorVectorSum rejects a field range *)
        | SV n => Ok (OVecSum a (vscal c (vone n)))  (* other * self.range.one() *)
        end.
 
